@@ -956,6 +956,10 @@ def mpf_acosh(x, prec, rnd=round_fast):
     wp = prec + 15
     if mpf_cmp(x, fone) == -1:
         raise ComplexResult("acosh(x) is real only for x >= 1")
+    # near x = 1, log(x+q) = log(1+d) with small d loses about -log2(d) bits
+    d = mpf_sub(x, fone)
+    if d[1] and d[2]+d[3] < 0:
+        wp += -(d[2]+d[3])
     q = mpf_sqrt(mpf_add(mpf_mul(x,x), fnone, wp), wp)
     return mpf_log(mpf_add(x, q, wp), prec, rnd)
 
